@@ -5,7 +5,10 @@ Kernels (contract-based, real source):
     parentheses without its minus sign when accounting style shows a negative value - decoration only, every digit of the number text kept;
   * _format_fraction_parts_to (all integers): 'w', 'w n/d', 'n/d' or '0' by cases, a fraction equal to one is carried into the whole part,
     never 'n/n';
-  * _unit-free part of the base format is NOT under contract (see below).
+  * _format_base, minus-sign mode (every value, every base 2..36): the digits the loop produces are the base-b expansion of |round(value)|
+    (loop invariant |V| == value * b^n + sum d_i b^i with 0 <= d_i < b, proved with the induction lemma DIGITS-FRAME; termination by a
+    decreases clause); the text is '-' iff negative + zero-fill(render(digits)) - rendering digits as characters and zero filling are
+    uninterpreted here (stand-in).
 Rounding and digit generation go through the third-party sigfig package, float formatting ('%.nE'), Fraction.limit_denominator and
 bin()/oct()/hex(): outside the VC generator's reach - the numeric relation "display read back == value rounded to the displayed precision"
 is decided by the bounded stand-in (independent decimal/fraction/base oracle over generated values and formats).
@@ -95,6 +98,111 @@ def build():
                          ensures=[fp_post], safety="fork", result="str", search=srch,
                          canaries=['result == str(numerator) + "/" + str(denominator)']))
 
+
+    # ------------------------------------------------------------------ _format_base: the digit loop (every integer, every base 2..36)
+    from pyvc.ctx import LoopSpec
+    from pyvc.plan import Lemma
+    from pyvc.sym import Custom, SOpt
+    A = z3.ArraySort
+    ipow = ctx.specfns["ipow"]
+    ACC = ctx.spec("digits_le_value", [A(Int, Int), Int, Int, Int],
+                   lambda f, at, b, k: z3.Implies(k >= 0, f(at, b, k) == z3.If(k == 0, z3.IntVal(0), f(at, b, k - 1) + z3.Select(at, k - 1) * ipow.f(b, k - 1))),
+                   None, "value of the first k little-endian digits in base b")
+    acc = ACC.f
+    RENDER = z3.Function("digits_rendered_most_significant_first", A(Int, Int), Int, Str)
+    ZFILL = z3.Function("zero_filled", Str, Int, Str)
+    ROUND = z3.Function("python_round", FloatS, Int)
+
+    class Digits(Custom):
+        def __init__(self, ln, at):
+            self.ln, self.at = ln, at
+
+        def length(self, ex):
+            return self.ln
+
+        def method(self, ex, name, args, kwargs, line):
+            if name != "append":
+                raise Unsupported(f"digit list .{name}")
+            self.at = z3.Store(self.at, self.ln, T(args[0]))
+            self.ln = self.ln + 1
+
+    def fb_entry(ex):
+        b = ex.fresh("int", "base")
+        ex.assume(z3.And(b.t >= 2, b.t <= 36))
+        nfmt = PObj("NumberFormat", {"base": b, "base_places": ex.fresh("int", "places"), "base_use_minus_sign": True})
+        v = ex.fresh("float", "value")
+        return {"value": v, "number_format": nfmt, "g_b": b, "g_V": SInt(ROUND(v.t))}
+
+    def fb_float_compare(ex, op, a, b_, line):
+        import ast as _ast
+        if isinstance(a, SFloat) and b_ == 0 and isinstance(op, _ast.Eq):
+            return z3.Bool(fresh_name("value_is_zero"))
+        return float_compare(ex, op, a, b_, line)
+    ctx.float_compare = fb_float_compare
+    ctx.float_eq_hook = None
+
+    def fb_inv(ex, env):
+        d = env["formatted_value"]
+        b, V = env["g_b"].t, env["g_V"].t
+        val = T(env["value"])
+        k = z3.Int(fresh_name("dk"))
+        absV = z3.If(V >= 0, V, -V)
+        return z3.And(d.ln >= 0, val >= 0, absV == val * ipow.f(b, d.ln) + acc(d.at, b, d.ln), ipow.f(b, d.ln) >= 1,
+                      z3.ForAll([k], z3.Implies(z3.And(0 <= k, k < d.ln), z3.And(z3.Select(d.at, k) >= 0, z3.Select(d.at, k) < b))))
+
+    def fb_havoc(ex, env):
+        env["formatted_value"] = Digits(z3.Int(fresh_name("n_digits")), z3.Const(fresh_name("digit_at"), A(Int, Int)))
+
+    def fb_hints(ex, env):
+        d = env["formatted_value"]
+        b = env["g_b"].t
+        k = z3.Int(fresh_name("fk"))
+        new_at = z3.Store(d.at, d.ln, T(env["value"]) % b)
+        frame = FRAME_instance(d.at, d.ln, T(env["value"]) % b, b, d.ln)
+        return [ipow.unfold(ipow.f, b, d.ln + 1), ipow.unfold(ipow.f, b, z3.IntVal(0)), ACC.unfold(acc, d.at, b, z3.IntVal(0)),
+                ACC.unfold(acc, new_at, b, d.ln + 1), frame]
+
+    # FRAME: storing at position n does not change the value of the first k <= n digits (induction on k)
+    at0, n0, d0, b0, k0 = z3.Const("at", A(Int, Int)), z3.Int("n"), z3.Int("d"), z3.Int("b"), z3.Int("k")
+
+    def FRAME_instance(at, n, d, b, k):
+        return z3.Implies(z3.And(0 <= k, k <= n), acc(z3.Store(at, n, d), b, k) == acc(at, b, k))
+    plan.lemma(Lemma("DIGITS-FRAME", "writing digit n leaves the value of the first k <= n digits unchanged (induction on k)",
+                     [("base", [ACC.unfold(acc, z3.Store(at0, n0, d0), b0, z3.IntVal(0)), ACC.unfold(acc, at0, b0, z3.IntVal(0)), n0 >= 0],
+                       FRAME_instance(at0, n0, d0, b0, z3.IntVal(0))),
+                      ("step", [0 <= k0, k0 < n0, FRAME_instance(at0, n0, d0, b0, k0), ACC.unfold(acc, z3.Store(at0, n0, d0), b0, k0 + 1),
+                                ACC.unfold(acc, at0, b0, k0 + 1)], FRAME_instance(at0, n0, d0, b0, k0 + 1))],
+                     instance=lambda at, n, d, b, k: FRAME_instance(at, n, d, b, k)))
+
+    def fb_join(ex, env):
+        d = env["formatted_value"]
+        ex.entry_env["g_digits"] = d
+        return wrap(RENDER(d.at, d.ln))
+
+    def fb_post(ex, env):
+        e0 = ex.entry_env
+        if "g_digits" not in e0:
+            return z3.BoolVal(True)  # the zero path returns before the loop ('0' padded): covered by the stand-in
+        d = e0["g_digits"]
+        b, V = env["g_b"].t, env["g_V"].t
+        places = T(env["number_format"].fields["base_places"])
+        absV = z3.If(V >= 0, V, -V)
+        k = z3.Int(fresh_name("pk"))
+        body = ZFILL(RENDER(d.at, d.ln), places)
+        return z3.And(acc(d.at, b, d.ln) == absV,
+                      z3.ForAll([k], z3.Implies(z3.And(0 <= k, k < d.ln), z3.And(z3.Select(d.at, k) >= 0, z3.Select(d.at, k) < b))),
+                      lift(env["result"]) == z3.If(V < 0, z3.Concat(z3.StringVal("-"), body), body))
+    fb_post.__name__ = ("minus-sign mode, value != 0: the digits d_0..d_{n-1} the loop produces satisfy sum d_i * base^i == |round(value)| with 0 <= d_i < "
+                        "base; the text is '-' (iff negative) + zero-fill(render(digits, most significant first), places)")
+    plan.target(Contract(
+        "cell:_format_base", label="minus-sign", entry=fb_entry, ensures=[fb_post], safety="fork", result="str", search=srch,
+        opaque={"round(value)": lambda ex, env: ex.entry_env["g_V"],
+                "''.join([INT_TO_BASE_CHAR[x] for x in formatted_value[::-1]])": fb_join,
+                "'0'.zfill(number_format.base_places)": lambda ex, env: wrap(ZFILL(z3.StringVal("0"), T(env["number_format"].fields["base_places"]))),
+                "formatted_value.zfill(number_format.base_places)": lambda ex, env: wrap(ZFILL(lift(env["formatted_value"]), T(env["number_format"].fields["base_places"])))},
+        local_views={"formatted_value": lambda ex, env: Digits(z3.IntVal(0), z3.K(Int, z3.IntVal(0)))},
+        loops={1: LoopSpec([fb_inv], havoc=[fb_havoc], hints=[fb_hints], kinds={"formatted_value": "skip"}, decreases="value")}))
+
     plan.bounded.append(BoundedStandIn(
         "displayed-numbers", "c13_numbers.py", [], thorough_args=["--level", "2"],
         bound="6 format families (decimal, percentage, currency incl. accounting and every supported currency, scientific, base 2..36 with 0..8 "
@@ -113,7 +221,7 @@ def build():
         "decided by the bounded stand-in only",
     ]
     plan.trusted += ["pyvc AST->SMT translation (cross-checked against CPython)", "z3 5.1.0", "cvc5 1.0.3 (string VCs)"]
-    plan.level = "other"
+    plan.level = "exploration"  # the deciding method for the statement is the bounded stand-in; the contracts cover the layers around it
     plan.explanation = ("Mostly bounded: only the decoration layers (_format_currency, _format_fraction_parts_to) are proved; the numeric relation between "
                         "value and displayed digits goes through sigfig, float formatting and Fraction, which the VC generator cannot model, and is a "
                         "bounded stand-in with an independent oracle.")
